@@ -77,8 +77,6 @@ theorem evalToks_append (env : List V) : ∀ (a b : List Tok) (ra rb : List (RTo
     exact (evalToks_cons _ t (ts ++ b) _).2 ⟨r, rs' ++ rb, h1, evalToks_append env ts b rs' rb h2 hb, rfl⟩
 
 /-- Tokens without tracer / graph references evaluate to themselves. -/
-def refFree (v : List Tok) : Bool := !(v.any (fun t => match t with | .ref _ | .gref _ => true | _ => false))
-
 theorem evalToks_lits (env : List V) : ∀ (v : List Tok), refFree v = true → evalToks env v = .ok (lits v)
   | [], _ => rfl
   | t :: ts, h => by
